@@ -116,8 +116,9 @@ def parse_criteria(criteria):
         return lambda a: op(a, val)
     else:
         if any(c in val for c in ('?', '*')):
-            # Then use fnmatch
-            return lambda a: isinstance(a, string_types) and fnmatch.fnmatch(a, val)
+            # Then use fnmatch; only * and ? are wildcards, a bracket is an ordinary character
+            pattern = val.replace('[', '[[]')
+            return lambda a: isinstance(a, string_types) and fnmatch.fnmatch(a, pattern)
         else:
             return lambda a: a == to_number(val)
 
